@@ -116,7 +116,7 @@ func (r *Registry) extendChain() {
 		if isConfEntry(e) {
 			if _, v2, err := decodeCC(e); err == nil {
 				cur := r.latestConf()
-				if next, merr := cur.Apply(v2); merr == nil {
+				if next, merr := cur.Apply(v2); merr == nil && !r.s.reusesRetiredID(cur, next, r.chainUpTo) {
 					if len(cur.Voters) == 1 {
 						for v := range cur.Voters {
 							if !next.Voters[v] {
@@ -177,4 +177,54 @@ func (r *Registry) observeCommitted(e *pb.Entry, observerTerm, by uint64) *comRe
 	}
 	r.extendChain()
 	return nil
+}
+
+// retiredBefore returns the ids that were members of some committed
+// configuration at an index below i and are not members of the committed
+// configuration in force just before i: ids that were removed from the
+// group. doc.go: "An ID represents a unique node in a cluster for all time. A
+// given ID MUST be used only once even if the old node has been removed."
+func (r *Registry) retiredBefore(i uint64) map[uint64]bool {
+	ever := map[uint64]bool{}
+	var cur refmodel.Conf
+	have := false
+	for _, p := range r.confAt {
+		if p.Index >= i && have {
+			break
+		}
+		for _, id := range p.Conf.Members() {
+			ever[id] = true
+		}
+		cur, have = p.Conf, true
+	}
+	out := map[uint64]bool{}
+	for id := range ever {
+		if !have || !cur.IsMember(id) {
+			out[id] = true
+		}
+	}
+	return out
+}
+
+// reusesRetiredID: with NoIDReuse (the liveness check) the application
+// refuses a committed change at index idx that brings back an id which was
+// removed from the group before.
+func (s *Sim) reusesRetiredID(cur, next refmodel.Conf, idx uint64) bool {
+	if !s.NoIDReuse {
+		return false
+	}
+	var ret map[uint64]bool
+	for _, id := range next.Members() {
+		if cur.IsMember(id) {
+			continue
+		}
+		if ret == nil {
+			ret = s.Reg.retiredBefore(idx)
+		}
+		if ret[id] {
+			s.Stats.inc("conf.rejected_id_reuse")
+			return true
+		}
+	}
+	return false
 }
